@@ -23,6 +23,22 @@ pub uninterp spec fn fone() -> f64;                      // 1.0
 spec fn theta_frac(t: u64) -> f64 { fdiv(u64_to_f64(t), u64_to_f64(MAX_THETA)) }
 
 // KX float leaves (each a closed fact about IEEE doubles, to be discharged by a Kani harness)
+// Harnesses that discharge them (run standalone with `kani l.rs`: 7/7 SUCCESSFUL, complete, 2.6 s) - to be moved to kani/leaves_float.rs:
+//   const MAX_THETA: u64 = i64::MAX as u64;
+//   #[kani::proof]
+//   fn leaf_theta_frac_ok() { let t: u64 = kani::any(); kani::assume(0 < t && t <= MAX_THETA); let f = t as f64 / MAX_THETA as f64; assert!(f > 0.0 && f <= 1.0); }
+//   #[kani::proof]
+//   fn leaf_theta_frac_one() { let f = MAX_THETA as f64 / MAX_THETA as f64; assert!(f.to_bits() == 1.0f64.to_bits()); }
+//   #[kani::proof]
+//   fn leaf_div_one() { let n: u64 = kani::any(); let x = n as f64; assert!((x / 1.0).to_bits() == x.to_bits()); }
+//   #[kani::proof]
+//   fn leaf_zero() { assert!((0u64 as f64).to_bits() == 0.0f64.to_bits()); }
+//   #[kani::proof]
+//   fn leaf_zero_div() { let t: f64 = kani::any(); kani::assume(t > 0.0 && t <= 1.0); assert!((0.0f64 / t).to_bits() == 0.0f64.to_bits()); }
+//   #[kani::proof]
+//   fn leaf_fle_refl() { let n: u64 = kani::any(); let x = n as f64; assert!(x <= x); }
+//   #[kani::proof]
+//   fn leaf_usize_as_f64() { let n: usize = kani::any(); assert!((n as f64).to_bits() == ((n as u64) as f64).to_bits()); }
 // (t as f64) / (2^63-1 as f64) lies in (0, 1] for 1 <= t <= 2^63-1
 #[verifier::external_body] proof fn leaf_theta_frac_ok(t: u64)
   requires 0 < t <= MAX_THETA ensures theta_ok(theta_frac(t)) {}
@@ -443,7 +459,8 @@ assert ( vals ( es1 ) . contains ( c ) <==> vals ( es0 ) . filter ( | c : u64 | 
 
     fn reset ( & mut self ) requires old ( self ) . wf ( ) ensures final ( self ) . wf ( ) , same_config ( final ( self ) . table , old ( self ) . table ) ,
 /*@C04.reset.initial*/ final ( self ) . table . is_initial ( ) ,
-/*@C04.reset.empty*/ forall | c : u64 | ! vals ( final ( self ) . table . entries @ ) . contains ( c ) , {
+/*@C04.reset.empty*/ forall | c : u64 | ! vals ( final ( self ) . table . entries @ ) . contains ( c ) ,
+/*@C04.reset.kmv*/ kmv ( ISet :: empty ( ) , final ( self ) . table . entries @ , final ( self ) . table . theta ) , {
 self . table . reset ( ) ;
 }
 
@@ -454,11 +471,14 @@ self . table . reset ( ) ;
 /*@C04.compact.ordered_flag*/ ordered ==> r . ordered ,
 /*@C04.compact.empty*/ r . empty == ( self . table . num_entries == 0 ) ,
 /*@C04.compact.theta*/ ! r . empty ==> r . theta == self . table . theta ,
-/*@C04.compact.theta_empty*/ r . empty ==> r . theta == MAX_THETA , r . seed_hash == seed_hash_spec ( self . table . hash_seed ) , {
+/*@C04.compact.theta_empty*/ r . empty ==> r . theta == MAX_THETA ,
+/*@C04.compact.estimate*/ r . est_spec ( ) == self . est_spec ( ) , r . seed_hash == seed_hash_spec ( self . table . hash_seed ) , {
 let mut entries : Vec < u64 > = vx_collect ( self ) ;
 let ghost es = self . table . entries @ ;
 let ghost cs = entries @ ;
 proof {
+leaf_theta_frac_one ( ) ;
+leaf_div_one ( self . n64 ( ) ) ;
 lemma_filter_facts ( es ) ;
 lemma_filter_len_occ ( es ) ;
 assert forall | c : u64 | cs . contains ( c ) <==> vals ( es ) . contains ( c ) by {
